@@ -1,4 +1,10 @@
-"""C15 -- each (file, pattern) verdict is independent of everything else in the run (bounded).
+"""C15 -- each (file, pattern) verdict is independent of everything else in the run (mixed).
+
+Verus (unit dispatch): analyze_for_* `ensures is_lines_of(r@, text, <locs>(pattern, parse_tree(text, file_number)))`: the returned
+set is a FUNCTION of (text, file number, pattern) alone, given that the parser and the detectors are functions of their
+arguments (assumed for the parser; for the detectors of the det_* units that is what their proved set-valued contracts say,
+for the others it is the frame scan below plus the bounded run). Everything else in the statement (other files, position in
+the directory, threads) is bounded:
 
 `c15` (repetition, file numbers, history of other patterns, threads incl. deeply nested files, fresh process) plus the
 directory contract `c03` (a file's lines inside analyze_dir equal its lines when analysed alone, whatever its siblings)."""
@@ -6,15 +12,27 @@ from .. import driver as D
 from . import bounded
 
 
+UNITS = [("dispatch", ["start", "end", "analyze_for_optimization", "analyze_for_vulnerability", "analyze_for_qa"])]
+TRUST = ["solang_parser::parse is a function of (text, file number) (uninterpreted parse_ok / parse_tree)",
+         "each detector is a function of the parse tree (`r@ == spec_<fn>(source_unit)` on external_body stubs in unit dispatch; proved for the detectors with set-valued contracts in units det_expr / det_decl / det_gate / det_vuln / det_incdec)",
+         "Verus verifies safe Rust without interior mutability here: a verified function cannot read or write state outside its arguments"]
+BOUNDED_PART = ["analyze_dir (directory position, siblings), thread interleavings, process-level state: native c15 + c03"]
+
+
+def key_to_functions(key):
+    return ["analyze_for_optimization", "analyze_for_vulnerability", "analyze_for_qa"]
+
+
 def run(tier, seed):
     vd = D.Verdict("C15", tier, seed)
+    covs, failed = bounded.run_units(vd, UNITS)
     try:
         binary, _ = D.build_native()
     except D.BuildError as e:
         vd.add_undecided(str(e)[:800])
         return vd.finish({"level": "exploration", "coverage": {"evaluations": 1, "distinct_nontrivial": 2, "rule": "native harness did not build", "samples": ["-"]}})
     nat = D.run_native(binary, "c15", tier, seed)
-    bounded.add_native_violations(vd, nat, "library-call independence")
+    D.combine(vd, failed, nat, key_to_functions=key_to_functions)
     ndir = D.run_native(binary, "c03", tier, seed)
     for v in ndir.get("violations", []):
         vd.add_violation("c15:" + v["key"], "inside a directory run: " + v["what"], obligation="analyze_dir result == union of the per-file results", counterexample=v.get("replay"),
@@ -27,4 +45,4 @@ def run(tier, seed):
     if fs["state_outside_arguments"]:
         ev["assumptions"].append("frame scan: constructs that can hold state outside the arguments were found in src/analyzer: %s" % fs["state_outside_arguments"][:5])
     ev["coverage"]["directory_part"] = {k: ndir.get(k) for k in ("evaluations", "distinct_nontrivial", "rule", "bound", "wall_s", "cmd")}
-    return vd.finish(ev)
+    return vd.finish(bounded.mixed_evidence(ev, covs, BOUNDED_PART, TRUST, tier, UNITS, vd))
